@@ -370,8 +370,44 @@ def isMetaTag (s : Src) (t : PTag) : Bool :=
      | some _ => false
      | none => !s.aac)
 
+/-! ### general profile_tier_level( ) of an H.265 parameter set (ITU-T H.265 §7.3.1.1, §7.3.3) -/
+
+/-- the NAL unit with its emulation-prevention bytes removed (the 03 of every 00 00 03) -/
+def unescape : Nat → Bytes → Bytes
+  | _, [] => []
+  | zeros, b :: bs =>
+    if zeros ≥ 2 ∧ b = 3 then unescape 0 bs
+    else b :: unescape (if b = 0 then zeros + 1 else 0) bs
+
+structure Ptl where
+  space : Nat
+  tier : Nat
+  idc : Nat
+  compat : Nat
+  constraint : Nat
+  level : Nat
+  deriving Repr, DecidableEq
+
+/-- the 12 bytes of general profile/tier/level starting at byte `off` of the unescaped NAL unit -/
+def ptlAt (off : Nat) (nal : Bytes) : Option Ptl :=
+  match (unescape 0 nal).drop off with
+  | b :: c1 :: c2 :: c3 :: c4 :: g1 :: g2 :: g3 :: g4 :: g5 :: g6 :: lvl :: _ =>
+    some { space := (b >>> 6).toNat, tier := ((b >>> 5) &&& 1).toNat, idc := (b &&& 0x1F).toNat,
+           compat := u32 c1 c2 c3 c4, constraint := u16 g1 g2 * 4294967296 + u32 g3 g4 g5 g6,
+           level := lvl.toNat }
+  | _ => none
+
+/-- SPS: NAL header (2 bytes), sps_video_parameter_set_id u(4) + sps_max_sub_layers_minus1 u(3) +
+    sps_temporal_id_nesting_flag u(1), then profile_tier_level( ) -/
+def spsPtl (sps : Bytes) : Option Ptl := ptlAt 3 sps
+
+/-- VPS: NAL header (2 bytes), 16 bits of ids/flags/layer counts, vps_reserved_0xffff_16bits, then
+    profile_tier_level( ) -/
+def vpsPtl (vps : Bytes) : Option Ptl := ptlAt 6 vps
+
 /-- the video decoder configuration tag: key frame, sequence header, CTS 0, and a configuration
-    record that parses and carries exactly the stream's parameter sets with 4-byte NAL lengths -/
+    record that parses and carries exactly the stream's parameter sets with 4-byte NAL lengths
+    (HEVC: and the general profile/tier/level of the parameter sets) -/
 def isVideoConfigTag (s : Src) (t : PTag) : Bool :=
   t.tagType = 9 && !t.filter && t.streamID = 0 &&
   match parseVideoBody t.data with
@@ -381,7 +417,15 @@ def isVideoConfigTag (s : Src) (t : PTag) : Bool :=
     (if s.codec = .h265 then
       match parseHvcc vb.body with
       | none => false
-      | some r => r.lengthSize = 4 && r.arrays = [(32, [s.vps]), (33, [s.sps]), (34, [s.pps])]
+      | some r =>
+        r.lengthSize = 4 && r.arrays = [(32, [s.vps]), (33, [s.sps]), (34, [s.pps])] &&
+        -- "general_* … contain the matching values for the fields in the parameter sets"
+        -- (14496-15 §8.3.3.1.3), demanded where VPS and SPS state the same values
+        (match spsPtl s.sps, vpsPtl s.vps with
+         | some a, some b =>
+           a ≠ b || (r.profileSpace = a.space && r.tier = a.tier && r.profileIdc = a.idc &&
+                     r.compat = a.compat && r.constraint = a.constraint && r.level = a.level)
+         | _, _ => true)
      else
       match parseAvcc vb.body, s.sps with
       | some r, _ :: p :: c :: l :: _ =>
